@@ -5,30 +5,17 @@
    call"): a nested call for a child only re-paths entries whose path was below the child's old path,
    hence below the folder's old path; the folder itself (now at the new path) is not among them. *)
 From Coq Require Import NArith List Bool Arith Lia.
-From CS Require Import Sx Str PathModel PathLaws StateModel StateProofs StatePathProofs.
+From CS Require Import Sx Str PathModel PathLaws StateModel StateProofs StatePathProofs StateGuardModel.
 Import ListNotations.
 
 (* ------------------------------------------------------------------ paths as component lists *)
-(* the case-folded components of a path: what is_subpath / join compare *)
-Definition Kc (cv : conv) (p : str) : list str := lowk cv (pc cv p).
-(* b is strictly below a *)
-Definition below (cv : conv) (a b : str) : Prop := exists r, r <> [] /\ Kc cv b = Kc cv a ++ r.
 
-Fixpoint strs_eqb (a b : list str) : bool :=
-  match a, b with
-  | [], [] => true
-  | x :: a', y :: b' => str_eqb x y && strs_eqb a' b'
-  | _, _ => false
-  end.
 Lemma strs_eqb_eq a b : strs_eqb a b = true <-> a = b.
 Proof.
   revert b. induction a as [|x a IH]; intros [|y b]; simpl; split; intros H; try discriminate; try reflexivity.
   - apply andb_prop in H as [H1 H2]. apply str_eqb_eq in H1. apply IH in H2. congruence.
   - injection H as -> ->. rewrite str_eqb_refl. apply IH. reflexivity.
 Qed.
-(* the decidable form of [below] *)
-Definition belowb (cv : conv) (a b : str) : bool :=
-  Nat.ltb (length (Kc cv a)) (length (Kc cv b)) && strs_eqb (firstn (length (Kc cv a)) (Kc cv b)) (Kc cv a).
 Lemma belowb_spec cv a b : belowb cv a b = true <-> below cv a b.
 Proof.
   unfold belowb, below. split.
@@ -113,10 +100,6 @@ Proof.
 Qed.
 
 (* ------------------------------------------------------------------ what _change_oid leaves alone: paths and object types *)
-Definition pkey (en : entry) := (s_path (e_l en), s_path (e_r en), s_otype (e_l en), s_otype (e_r en)).
-Definition pview (s : state) := map pkey (ents s).
-Definition otype_of (s : state) (e : eid) (sd : bool) : option otype :=
-  match nth_error (ents s) e with Some en => Some (s_otype (gs en sd)) | None => None end.
 
 Lemma pview_eq s s' : pview s = pview s' ->
   forall e sd, path_of s e sd = path_of s' e sd /\ otype_of s e sd = otype_of s' e sd.
@@ -501,15 +484,6 @@ End Folder.
 (* ------------------------------------------------------------------ the guard as a boolean on the state *)
 Definition env_ok (E : env) : Prop := legacy E = false /\ forall sd, conv_ok (cvs E sd).
 
-Definition path_guardb (E : env) (s : state) (e : eid) (sd : bool) (v : option str) : bool :=
-  match nth_error (ents s) e, v with
-  | Some en, Some p =>
-    match s_otype (gs en sd), s_path (gs en sd) with
-    | Dir, Some pp => negb (belowb (cvs E sd) pp p)
-    | _, _ => true
-    end
-  | _, _ => true
-  end.
 
 Lemma path_guardb_gd E s e sd v en :
   path_guardb E s e sd v = true -> get_ent s e = Ok en -> gd E sd (s_otype (gs en sd)) (s_path (gs en sd)) v.
